@@ -11,19 +11,20 @@ COMMON_NOTE = ("Trusted base: Lean 4.33 kernel (+ leanchecker in the thorough ti
                "translate/gen_tables.py for generated data; the correspondence harness and compiled bsdriver. "
                "Hand-written code-mirror models are tied to /repo by differential runs on every check (counts in evidence). ")
 
-CHECKS = {
-    "C20": dict(
-        text=("Lean theorems: for every registration history of feature sets and every request list, the code-mirror of "
-              "TreeBuilderRegistry.register/lookup computes the documented choice (lookup_spec), with its meaning spelled out "
-              "(lookup_some_meaning, lookup_none_iff, unoffered_ignored, lookup_no_features, default_falls_back) and the constructor "
-              "decision (fnf_iff_none, explicit_builder_bypasses, kwargs_forwarded); plus kernel-decided obligations over the shipped "
-              "registry generated from the live code. Tie: exhaustive correspondence of the real registry with the Lean mirror and spec "
-              "over all histories of <=3 (thorough <=4) builders x all request lists <=3, and the real constructor against a private registry."),
-        design="7/C20",
-        note="Feature lists without repeats (true of every shipped builder). Constructor cases swap a private registry in for bs4.builder_registry.",
-        technique="Lean 4 refinement proof (code-mirror = spec) + exhaustive small-scope correspondence with the real registry",
-    ),
-}
+def discover():
+    """Every harness/cXX.py carries a literal `MANIFEST = dict(text=..., design=..., note=..., technique=...)`."""
+    import ast
+    out = {}
+    for f in sorted((VERIF / "harness").glob("c[0-9][0-9].py")):
+        tree = ast.parse(f.read_text())
+        for node in tree.body:
+            if isinstance(node, ast.Assign) and getattr(node.targets[0], "id", None) == "MANIFEST":
+                call = node.value
+                out[f.stem.upper()] = {k.arg: ast.literal_eval(k.value) for k in call.keywords}
+    return out
+
+
+CHECKS = discover()
 
 IN_PROGRESS_REASON = "check not built yet in this session (work in progress; see DESIGN.md section 7 for the plan)"
 
